@@ -49,16 +49,17 @@ Resync(obs) ==
     [file  |-> [x \in TLists |-> [ex |-> obs.file[x].ex, rules |-> obs.file[x].rules]],
      count |-> [x \in TLists |-> obs.count[x]],
      sum   |-> [x \in TLists |-> Sum(obs.file[x].rules)],
-     eng   |-> [x \in TLists |-> SetOf(obs.eng[x])]]
+     eng   |-> [x \in TLists |-> SetOf(obs.eng[x])],
+     en    |-> S.en]
 
 Init == /\ l = 1
         /\ cfg = [enabled |-> [x \in TLists |-> TRUE], src |-> [x \in TLists |-> "http"], cosm |-> FALSE]
-        /\ S = S0
+        /\ S = S0(cfg)
         /\ bad = {} /\ odd = {}
 
 Boot == /\ Trace[l].ev = "boot"
         /\ cfg' = Trace[l].cfg
-        /\ S' = S0
+        /\ S' = S0(Trace[l].cfg)
         /\ UNCHANGED <<bad, odd>>
 
 Step ==
@@ -69,7 +70,7 @@ Step ==
            rst == Restarted(cfg, S)
            \* the harness and the specification must agree on who is contacted
            sane == \/ act.a = "restart"
-                   \/ /\ Selected(cfg, act) = DOMAIN r.script
+                   \/ /\ Selected(S, act) = DOMAIN r.script
                       /\ \A x \in DOMAIN r.script : WellFormed(r.script[x])
                       /\ r.contact_ok
        IN IF ~sane
